@@ -40,9 +40,12 @@ const (
 
 var zzPackages = []string{
 	"xpkg.example.org/acme/provider-x:v1",
-	"xpkg.example.org/acme/provider-y:v1",   // same registry, same org
-	"xpkg.example.org/other/provider-y:v1",  // other org
-	"registry.other.io/acme/provider-y:v1",  // other registry
+	"xpkg.example.org/acme/provider-y:v1",         // same registry, same org
+	"xpkg.example.org/other/provider-y:v1",        // other org
+	"registry.other.io/acme/provider-y:v1",        // other registry
+	"xpkg.example.org/acme-corp/provider-y:v1",    // an org that has ours as a prefix
+	"xpkg.example.org/acm/provider-y:v1",          // an org that is a prefix of ours
+	"xpkg.example.org.evil.io/acme/provider-y:v1", // a registry that has ours as a prefix
 }
 
 func zzCRDRef(name string) xpv1.TypedReference {
